@@ -75,7 +75,15 @@ func (s *Schema) Example() ([]byte, error) {
 	return s.generateExample()
 }
 
-func (s *Schema) generateExample() ([]byte, error) {
+func (s *Schema) generateExample() (b []byte, err error) {
+	defer func() {
+		if r := recover(); r != nil {
+			// The generator panics on a pattern no string can match (an empty
+			// character class such as [^\s\S]): there is no example to give.
+			b = nil
+			err = errors.NewDocumentError(s.file, errors.Format(errors.ErrRegexInvalid, s.pattern))
+		}
+	}()
 	g, err := s.generatorOnce.Do(func() (*reggen.Generator, error) {
 		g, err := reggen.NewGenerator(s.pattern)
 		if err != nil {
